@@ -2,6 +2,6 @@ CONSTANTS StreamId = 1 MaxNotify = 2 HeaderSurvives = TRUE
 CONSTANT Queries <- QueriesDef
 SPECIFICATION Spec
 VIEW view
-INVARIANTS AnswersInOrder NoLoss NoGarbage Complete NotifyCount Emit
+INVARIANTS AnswersInOrder NoLoss NoGarbage Complete NotifyCount OneVersion Emit
 PROPERTY AllAnswered
 CHECK_DEADLOCK FALSE
